@@ -86,6 +86,16 @@ func (m *Mutex) Lock() {
 }
 
 func (m *Mutex) Unlock() {
+	if zsim.Unwinding() {
+		// A task unwound while it was parked inside Lock never took the real
+		// mutex; a deferred Unlock registered before that Lock (sync.Cond.Wait
+		// re-locking under an earlier "defer mu.Unlock()") must not unlock what
+		// is not locked - the runtime would end the process.
+		if m.mu.TryLock() {
+			m.mu.Unlock()
+			return
+		}
+	}
 	m.mu.Unlock()
 	if r := zsim.Active(); r != nil {
 		r.Release(unsafe.Pointer(m), false)
@@ -115,6 +125,12 @@ func (m *RWMutex) Lock() {
 }
 
 func (m *RWMutex) Unlock() {
+	if zsim.Unwinding() {
+		if m.mu.TryLock() { // see Mutex.Unlock
+			m.mu.Unlock()
+			return
+		}
+	}
 	m.mu.Unlock()
 	if r := zsim.Active(); r != nil {
 		r.Release(unsafe.Pointer(m), false)
